@@ -17,6 +17,20 @@ What is demanded (statement, nothing more):
  (iv)  no user stream/function callback fires while the model is not COMMUNICATING
 A late S1F14 (COMMACK 0) answering an earlier S1F13 of the same link is an exchange completed on the current link: the
 model accepts both outcomes there (counted as 'unconstrained').
+
+User answer modes: on_commack_requested() of the application answers constantly (accept / refuse) or differently from call
+to call (alternating 1,0,1,0.. / 0,1,0,1.., one-shot "deny the next request"; initial mode from the case, switched by ops).
+The model never predicts the answer from the mode: it follows the COMMACK that actually went out on the wire (COMMUNICATING
+only after an S1F14 with COMMACK 0 was sent; a refused S1F13 leaves the state alone), and the wire value must be one of the
+values the callback returned while that S1F13 was handled.
+
+Fast peer ('fast-retry' template, the only histories that run under a PRNG schedule - case["sched"] = {seed, switch}): op
+`fast_reply` lets virtual time run until the handler's next S1F13 (the retry sent by the T3 / delay timer thread) is on the
+wire, stops the world right there (sim.pump(stop=bytes on the wire)), feeds the S1F14 (refusing or accepting) at once and
+only then lets the threads run, the scheduler switching threads at random yield points: the answer is dispatched while the
+timer thread that sent the attempt may still exist. The model is the same as for an answer at a quiescent point (WAIT_DELAY
+and the next S1F13 one delay later, or COMMUNICATING). These histories contain only ops whose outcome at the next quiescent
+point does not depend on the interleaving (advance, S1F14 answers, fast replies).
 """
 
 from __future__ import annotations
@@ -35,21 +49,32 @@ RULE = (
     "Histories of 1..25 ops (quick) / 1..50 (thorough) over {enable, disable, link_up (connect+select), link_lost, S1F13 in, "
     "S1F14 in (COMMACK 0 | 1; answering the pending attempt | an older attempt), other primary in, advance dt with dt drawn "
     "around T3 and the establish-communications delay (just before / exactly / just after), set on_commack_requested accept | "
-    "refuse}, host and equipment roles. After every op communication_state, the S1F13/S1F14 frames on the wire with their "
+    "refuse | alternate 1,0,.. | alternate 0,1,.. | deny once (answer differs between consecutive calls; the model follows the COMMACK "
+    "on the wire, which must be a value the callback returned during that op)}, host and equipment roles; initial answer mode drawn "
+    "per case. Template 'fast-retry' (PRNG schedule seed x switch probability, confined to it): failed attempt, then 2..4 x "
+    "fast_reply = run virtual time until the retry S1F13 is on the wire, feed the S1F14 (COMMACK != 0 mostly) before the world "
+    "is quiescent, settle under the random schedule, then advance by the delay. After every op communication_state, the S1F13/S1F14 frames on the wire with their "
     "virtual timestamps and the user callback log are compared with the model. Non-trivial = history containing a refusal, a "
     "late S1F14, a link loss in WAIT_CRA/WAIT_DELAY/COMMUNICATING, or a timer expiry; distinct by op sequence."
 )
 ASSUMPTIONS = [
     "E30 communication state model typed in from the standard (WAIT_CRA / WAIT_DELAY / COMMUNICATING, T3 = reply timeout, establish-communications delay)",
     "timers run on the scheduler's virtual clock; a retry is 'exactly after the delay' when it appears within 0.05 s of the computed instant",
-    "default (run-to-block) schedule; thread interleavings are C05/C06's subject",
+    "default (run-to-block) schedule, except the 'fast-retry' template (PRNG schedule while an S1F14 is answered the moment the retry S1F13 is on the wire); other thread interleavings are C05/C06's subject",
 ]
 BUDGET_S = {"quick": 110, "thorough": 1200}
 
 T3 = 6.0
 DELAY = 4.0
 
-OPS = ["enable", "disable", "link_up", "link_lost", "s1f13_in", "s1f13_in", "s1f14_ok", "s1f14_ok", "s1f14_refuse", "s1f14_old", "other_in", "advance", "advance", "advance", "user_refuse", "user_accept"]
+OPS = ["enable", "disable", "link_up", "link_lost", "s1f13_in", "s1f13_in", "s1f13_in", "s1f14_ok", "s1f14_ok", "s1f14_refuse", "s1f14_old", "other_in", "advance", "advance", "advance",
+       "user_refuse", "user_accept", "user_alt10", "user_alt01", "user_deny_once", "fast_reply"]
+# answer modes of the application's on_commack_requested(): constant, or differing between consecutive calls
+USER_MODES = {"user_accept": "accept", "user_refuse": "refuse", "user_alt10": "alt10", "user_alt01": "alt01", "user_deny_once": "deny_once"}
+VARYING = ("alt10", "alt01", "deny_once")
+# ops whose outcome at the next quiescent point does not depend on the thread interleaving (the only ones used under a PRNG schedule)
+SCHED_SAFE = ("advance", "s1f14_ok", "s1f14_refuse", "s1f14_old", "fast_reply")
+REFUSALS = [1, 1, 2, 64, 255, "empty"]
 DTS = [0.5, DELAY - 0.1, DELAY, DELAY + 0.1, T3 - 0.1, T3, T3 + 0.1, T3 + DELAY, 1.0, 2.0]
 
 
@@ -68,10 +93,13 @@ def case_strategy(draw, max_ops=25):
             op["sf"] = draw(st.sampled_from([[10, 3], [10, 3], [10, 3], [2, 13], [5, 13], [7, 13], [2, 14], [6, 14], [1, 1], [2, 17]]))
         if k == "s1f14_refuse":
             # any COMMACK other than one byte 0: non-zero values, or an item without any byte (still not "COMMACK = 0")
-            op["commack"] = draw(st.sampled_from([1, 1, 2, 64, 255, "empty"]))
+            op["commack"] = draw(st.sampled_from(REFUSALS))
+        if k == "fast_reply":
+            op["commack"] = draw(st.sampled_from([0] + REFUSALS))
         ops.append(op)
     # most histories start by getting somewhere interesting
-    start = draw(st.sampled_from(["none", "up", "up", "restart-in-wait-delay", "restart-in-wait-cra", "restart-after-t3"]))
+    start = draw(st.sampled_from(["none", "up", "up", "up", "restart-in-wait-delay", "restart-in-wait-cra", "restart-after-t3", "fast-retry", "fast-retry"]))
+    sched = None
     if start == "up":
         ops = [{"op": "enable"}, {"op": "link_up"}] + ops
     elif start == "restart-in-wait-delay":
@@ -87,7 +115,24 @@ def case_strategy(draw, max_ops=25):
     elif start == "restart-after-t3":
         ops = [{"op": "enable"}, {"op": "link_up"}, {"op": "advance", "dt": T3 + 0.5}, {"op": "disable"}, {"op": "enable"}, {"op": "link_up"},
                {"op": "s1f14_refuse"}, {"op": "advance", "dt": DELAY - 0.5}, {"op": "advance", "dt": 1.0}] + ops
-    return {"ops": ops, "role": draw(st.sampled_from(["host", "equipment"]))}
+    elif start == "fast-retry":
+        # a failed first attempt (refused, or unanswered until T3), then the peer answers each retry the moment its S1F13 is
+        # on the wire - while the timer thread that sent it may still exist - under a PRNG schedule; afterwards the delay
+        # passes: the next retry has to show up
+        head = [{"op": "enable"}, {"op": "link_up"}]
+        head.append({"op": "s1f14_refuse", "commack": draw(st.sampled_from(REFUSALS))} if draw(st.booleans()) else {"op": "advance", "dt": T3 + 0.1})
+        for _ in range(draw(st.integers(2, 4))):
+            gap = draw(st.sampled_from([None, None, 1.0, DELAY - 0.1]))
+            if gap is not None:
+                head.append({"op": "advance", "dt": gap})
+            head.append({"op": "fast_reply", "commack": draw(st.sampled_from(REFUSALS))})
+        head += [{"op": "advance", "dt": DELAY}, {"op": "advance", "dt": 0.2}]
+        ops = head + [op for op in ops if op["op"] in SCHED_SAFE][:8]
+        sched = {"seed": draw(st.integers(1, 1 << 16)), "switch": draw(st.sampled_from([0.1, 0.15, 0.2, 0.2, 0.3, 0.3, 0.5]))}
+    case = {"ops": ops, "role": draw(st.sampled_from(["host", "equipment"])), "user": draw(st.sampled_from(["accept", "accept", "accept", "refuse", "alt10", "alt10", "alt01", "deny_once"]))}
+    if sched is not None:
+        case["sched"] = sched
+    return case
 
 
 class Model:
@@ -98,7 +143,6 @@ class Model:
         self.attempts = []  # (system, t_sent) of S1F13 sent by the handler on the current link
         self.t3_at = None  # virtual time at which the pending attempt times out
         self.retry_at = None  # set of acceptable instants for the next S1F13
-        self.refuse = False
         self.established = False  # an exchange with COMMACK 0 completed on the current link
         self.unconstrained = False
 
@@ -107,13 +151,30 @@ def run_case(case, observe=None):
     role = case["role"]
     ops = case["ops"]
     m = Model()
-    stats = {"refusal": 0, "late_s1f14": 0, "loss_in": set(), "timer_expiry": 0, "unconstrained": 0}
-    with hsmsrig.make_world({}) as w:
+    stats = {"refusal": 0, "late_s1f14": 0, "loss_in": set(), "timer_expiry": 0, "unconstrained": 0, "vary_refused": 0, "vary_accepted": 0,
+             "fast_reply": 0, "fast_refused": 0, "fast_accepted": 0, "fast_refused_sender_alive": 0}
+    # PRNG schedule only where the case asks for it (the 'fast-retry' template); default = run-to-block
+    with hsmsrig.make_world(case.get("sched") or {}) as w:
         sim = w.sim
         rig = gemrig.GemRig(w, role=role, t3=T3, ec_delay=DELAY, handler_kwargs={"initial_control_state": "HOST_OFFLINE"} if role == "equipment" else None)
         h = rig.h
         user_calls = []
-        h.on_commack_requested = lambda: 1 if m.refuse else 0
+        # the application's answer to an inbound S1F13: constant, or differing between consecutive calls
+        user = {"mode": case.get("user", "accept"), "n": 0}  # n = calls since the mode was set
+        answers = []  # every value on_commack_requested() returned, in call order
+
+        def user_answer(n=None):
+            mode = user["mode"]
+            k = user["n"] if n is None else n
+            return {"accept": 0, "refuse": 1, "alt10": 1 - k % 2, "alt01": k % 2, "deny_once": 1 if k == 0 else 0}[mode]
+
+        def on_commack_requested():
+            v = user_answer()
+            user["n"] += 1
+            answers.append(v)
+            return v
+
+        h.on_commack_requested = on_commack_requested
         # a user callback for a primary that the handlers do not handle themselves
         h.register_stream_function(10, 3, lambda handler, message: user_calls.append((sim.now, m.state)) or handler.stream_function(10, 4)(0))
         comm_events = []
@@ -177,6 +238,16 @@ def run_case(case, observe=None):
 
         m.delay_until = None
         m.loose = False
+        # coverage only (no verdict depends on it): was a fast refusal handled (WAIT_DELAY entered) while the timer thread that
+        # had sent the refused attempt still existed?
+        fast_senders = []
+
+        def on_enter_wait_delay(_data):
+            if any(t.state != "DONE" for t in fast_senders):
+                stats["fast_refused_sender_alive"] += 1
+            del fast_senders[:]
+
+        h.communication_state.wait_delay.events.enter.register(on_enter_wait_delay)
         for i, op in enumerate(ops):
             k = op["op"]
             n_user = len(user_calls)
@@ -248,17 +319,19 @@ def run_case(case, observe=None):
                 m.t3_at = m.delay_until = m.expect_s1f13 = None
                 m.established = False
                 del pending_s1f13[:], old_s1f13[:]
-            elif k in ("user_refuse", "user_accept"):
-                m.refuse = k == "user_refuse"
+            elif k in USER_MODES:
+                user["mode"] = USER_MODES[k]
+                user["n"] = 0
                 continue
             elif k == "advance":
                 sim.advance(op["dt"])
             elif not m.link:
                 continue
-            elif m.state == "LOOSE" and k in ("s1f13_in", "s1f14_ok", "s1f14_refuse", "s1f14_old", "other_in"):
+            elif m.state == "LOOSE" and k in ("s1f13_in", "s1f14_ok", "s1f14_refuse", "s1f14_old", "other_in", "fast_reply"):
                 continue  # not predictable until the library's own attempt shows up
             elif k == "s1f13_in":
                 item = (L, [(A, b"peer"), (A, b"1.0")]) if role == "host" else (L, [])
+                n_ans = len(answers)
                 s, mine, other = rig.request(1, 13, item)
                 rig._cursor -= len(other)  # let observe_wire see frames that were not the reply
                 rig._cursor = max(0, rig._cursor)
@@ -272,25 +345,60 @@ def run_case(case, observe=None):
                     else:
                         body = gemrig.dec(mine[0]["body"])
                         commack = body[1][0][1][0]
-                        want = 1 if m.refuse else 0
-                        if commack != want:
-                            return fail("s1f14-commack", i, commack, want)
-                        if want == 0:
+                        # the answer on the wire is one the application gave while this S1F13 was handled (if it was not
+                        # asked at all: the one it would give now)
+                        want = sorted(set(answers[n_ans:])) or [user_answer()]
+                        if commack not in want:
+                            return fail("s1f14-commack", i, commack, f"one of {want} (answers of on_commack_requested during this op)")
+                        # the model follows what went out on the wire, not what the application might say when asked again
+                        if commack == 0:
                             m.state = "COMMUNICATING"
                             m.established = True
                             m.t3_at = m.delay_until = m.expect_s1f13 = None
                             del pending_s1f13[:]
                         else:
                             stats["refusal"] += 1
-            elif k in ("s1f14_ok", "s1f14_refuse", "s1f14_old"):
+                        if user["mode"] in VARYING:
+                            stats["vary_accepted" if commack == 0 else "vary_refused"] += 1
+            elif k in ("s1f14_ok", "s1f14_refuse", "s1f14_old", "fast_reply"):
+                fast = k == "fast_reply"
                 src = old_s1f13 if k == "s1f14_old" else pending_s1f13
-                if not src:
+                if fast:
+                    # fast peer: virtual time runs until the handler's next attempt (sent by the T3 / delay timer thread) is on
+                    # the wire; the world is stopped right there and the answer is fed before any thread runs on
+                    if m.state == "WAIT_CRA" and m.t3_at is not None:
+                        limit = m.t3_at + DELAY + 0.2
+                    elif m.state == "WAIT_DELAY" and m.delay_until is not None:
+                        limit = m.delay_until[1] + 0.2
+                    else:
+                        continue
+                    del fast_senders[:]
+                    if sim.pump(may_advance=lambda: True, limit=limit, stop=lambda: bool(rig.peer.rx)) == "stop":
+                        # coverage only: the timer thread that sent the attempt (the newest timer is the attempt's own T3 timer)
+                        fast_senders.extend(sim.alive("Timer-")[:-1])
+                        tick(i)
+                        f = observe_wire(i)
+                        if f is not None:
+                            return f
+                        if m.state != "WAIT_CRA":
+                            src = []  # what was sent is not an attempt
+                    else:
+                        sim.advance(max(0.0, limit - sim.now))  # no attempt in time: the common checks below decide
+                        src = []
+                    if src:
+                        stats["fast_reply"] += 1
+                elif not src:
                     continue
-                s, t_sent = src[-1]
-                commack = op.get("commack", 1) if k == "s1f14_refuse" else 0
-                item = (L, [(B, b"" if commack == "empty" else bytes([commack])), (L, [] if role == "equipment" else [(A, b"peer"), (A, b"1.0")])])
-                rig.send_sf(1, 14, 0, item, system=s)
-                if k == "s1f14_old":
+                if src:
+                    s, t_sent = src[-1]
+                    commack = op.get("commack", 1) if k in ("s1f14_refuse", "fast_reply") else 0
+                    item = (L, [(B, b"" if commack == "empty" else bytes([commack])), (L, [] if role == "equipment" else [(A, b"peer"), (A, b"1.0")])])
+                    rig.send_sf(1, 14, 0, item, system=s, settle=not fast)
+                    if fast:
+                        stats["fast_accepted" if commack == 0 else "fast_refused"] += 1
+                if not src:
+                    pass
+                elif k == "s1f14_old":
                     stats["late_s1f14"] += 1
                     if m.state in ("WAIT_CRA", "WAIT_DELAY"):
                         m.unconstrained = True  # a late COMMACK 0 of the same link: either outcome satisfies the statement
@@ -380,7 +488,7 @@ def run_case(case, observe=None):
 
 def plan(tier, seed):
     quick = tier == "quick"
-    return [("gen", {"shard": i, "n": 100 if quick else 1000, "max_ops": 25 if quick else 50}) for i in range(16)]
+    return [("gen", {"shard": i, "n": 150 if quick else 1200, "max_ops": 25 if quick else 50}) for i in range(16)]
 
 
 def run_task(name, kw, ctx):
@@ -398,6 +506,20 @@ def run_task(name, kw, ctx):
             cls.append("timer-expiry")
         if obs.get("unconstrained"):
             cls.append("unconstrained-late-commack0")
+        if obs.get("vary_refused"):
+            cls.append("varying-user-answer:refused-on-wire")
+        if obs.get("vary_accepted"):
+            cls.append("varying-user-answer:accepted-on-wire")
+        if case.get("sched"):
+            cls.append("prng-schedule")
+        if obs.get("fast_reply"):
+            cls.append("fast-reply")
+        if obs.get("fast_refused"):
+            cls.append("fast-reply:refused")
+        if obs.get("fast_accepted"):
+            cls.append("fast-reply:accepted")
+        if obs.get("fast_refused_sender_alive"):
+            cls.append("fast-reply:refusal-handled-while-sender-timer-thread-alive")
         nt = bool(obs.get("refusal") or obs.get("late_s1f14") or obs.get("loss_states") or obs.get("timer_expiry"))
         ctx.case(case, nt or f is not None, cls)
         return f
